@@ -138,7 +138,7 @@ def g_target(rng):
     if r < 0.25:
         # constants with sums/differences/powers inside a target (the unit-name evaluator treats them separately)
         u = rng.choice(UNITS)
-        inner = rng.choice(["(0-1)", "(0+1)", "(1-1)", "(2-2)", "(3-1)", "(0-1)^-1", "(0+1)^-1", "(1+1)^2", "(1-2)", "0", "-0", "(0 %s)" % u])
+        inner = rng.choice(["(-8)^2.5", "1e200^2.5", "(1e-200)^-2.5", "(-1)^0.5", "4^1.5", "(0-1)", "(0+1)", "(1-1)", "(2-2)", "(3-1)", "(0-1)^-1", "(0+1)^-1", "(1+1)^2", "(1-2)", "0", "-0", "(0 %s)" % u])
         return rng.choice(["%s/%s", "%s %s", "%s/(%s %s)" % ("%s", "%s", u), "1/%s %s", "%s^%s", "(%s)^(%s)", "%s mod %s", "%s - %s"]) % (
             rng.choice([u, "1", "2", inner]), inner)
     if r < 0.4:
@@ -180,7 +180,7 @@ def g_grammar(rng):
     return "#%s#%s" % (g_date(rng), rng.choice(["", " + 1 day", " - #2020-01-01#", " -> +05:00", " -> \"US/Pacific\"", " * 2", " -> s"]))
 
 
-SPECIAL_VALUES = ["ln(-1)", "log2(0)", "-log2(0)", "exp(1000)", "-exp(1000)", "sin(0)", "0", "-0", "0.0", "(1-1)", "(0-1)", "1e-400", "1e400",
+SPECIAL_VALUES = ["(-8)^2.5", "1e200^2.5", "(1e-200)^-2.5", "(-1)^0.5", "(-2)^(1|3)", "2^0.5", "4^1.5", "ln(-1)", "log2(0)", "-log2(0)", "exp(1000)", "-exp(1000)", "sin(0)", "0", "-0", "0.0", "(1-1)", "(0-1)", "1e-400", "1e400",
                   "asin(2)", "(exp(1000)-exp(1000))", "2^0.5", "sqrt(2)", "1|3", "-1|3", "2147483647", "2147483648", "-2147483649",
                   "9223372036854775807", "9223372036854775808", "1e19", "1e-19", "4294967296", "0.1", "1.0000000000000001", "pi",
                   "ans", "now", "#2020-01-01#", "water", "(2 kg water)", "(3 m oxygen)", "(1 mol gold)", "'q'", "m", "m^-1", "s", "1 year",
